@@ -344,7 +344,7 @@ class World:
         self._park(me)
 
     # ---- collectives -----------------------------------------------------
-    def collective(self, me, cid, members, op, sig, payload, complete_fn, rule='all'):
+    def collective(self, me, cid, members, op, sig, payload, complete_fn, rule='all', pdigest=None):
         """Join collective number k of rank `me` on context `cid`.
 
         sig          - everything that must be identical on all members
@@ -360,7 +360,7 @@ class World:
         rec = self.records.get(key)
         if rec is None:
             rec = self.records[key] = Record(op, sig, members, rule, complete_fn, me)
-        self.event(me, 'coll', (cid, seq, op, repr(sig)))
+        self.event(me, 'coll', (cid, seq, op, repr(sig)) + ((pdigest,) if pdigest is not None else ()))
         if rec.op != op or rec.sig != sig:
             self._fail(Violation('collective-mismatch',
                                  dict(context=cid, seq=seq, first_rank=rec.first_rank,
